@@ -8,6 +8,7 @@ static bool ledger_block_live(const void *p) { return asim::is_live_block(p); }
 World::World(const WorldCfg &c, EventLog &l, RunStats &s) : cfg(c), log(l), stats(s) {
     mv_block_live = ledger_block_live;
     mv_tolerate_dangling = !c.judge_values && (c.judge_memory || c.judge_hooks);
+    mv_lenient_valueint = (c.property == "C07" || c.property == "C14" || c.property == "C16" || c.property == "C17" || c.property == "C18" || c.property == "C19");
     for (auto &x : slots) x = nullptr;
     for (auto &t : touched) t = false;
     for (auto &t : utils_touched) t = false;
